@@ -526,6 +526,7 @@ def run(ctx):
     if ctx.prop == "C15" and not getattr(ctx, "_sharing", False):
         from .common import share
         share(ctx, "C14", ("R14.1", "R14.2"), "R15.8", "write-set obligations shared with C14", 6)
+        share(ctx, "C13", ("R13.1", "R13.2"), "R15.8", "uniqueness obligations shared with C13 (a name declared in two groups is listed twice)", 4)
     # ---- R15.3
     used = set()
     for bid, i, e in usage.roots():
@@ -595,6 +596,13 @@ def run(ctx):
             ctx.check(any(p == "description_" for p in parts), "R15.4", bf, "description-present", "description_ does not flow into the text (%s)" % parts, bf)
             ctx.check(any("env_" in p for p in parts), "R15.4", bf, "env-hint-present", "the environment hint does not flow into the text", bf)
             ctx.check(any(p == "format_default()" for p in parts), "R15.4", bf, "default-present", "format_default() does not flow into the text", bf)
+            # ... on EVERY way through the function: a line can only show the default / the environment hint / the description if that
+            # path asked for it (an early return for "nothing to lay out" that skips format_default() drops the default of such options)
+            for what, pred in (("format_default()", lambda e: e.get("expr") is not None and any(n.get("k") == "call" and short(n.get("name") or "") == "format_default" for n in walk(e["expr"]))),
+                               ("has_env()", lambda e: e.get("expr") is not None and ("has_env()" in fmt(e["expr"]) or "env_" in fmt(e["expr"]))),
+                               ("description_", lambda e: e.get("expr") is not None and "description_" in fmt(e["expr"]))):
+                okp, pth = cfg.must_happen_before_exit(bf, pred)
+                ctx.check(okp, "R15.4", bf, "consulted-on-every-path:" + what, "base::format can finish (B%s) without consulting %s: on that path the line cannot show it" % ("->B".join(map(str, pth or [])), what), bf)
             ctx.check(re.search(r"text = join\(description", txt) is not None and "format_padded(%s, text, 40, 80)" % buf in txt, "R15.4", bf, "text-wrapped-into-line", "the joined description is not handed to the wrapper on the line buffer", bf)
             ctx.check("(%s << %s.str())" % (target, buf) in txt, "R15.4", bf, "line-written-to-target", "the finished line is not inserted into the target stream", bf)
             # the private buffer must stay private: nothing of the target stream's state may be copied into it
